@@ -12,6 +12,9 @@ import (
 	"fmt"
 	"math"
 	"os"
+	"reflect"
+	"sort"
+	"strings"
 )
 
 // Replay holds the values of the named inputs for a native run.
@@ -51,6 +54,7 @@ func SetReplay(v map[string]uint64) {
 	Replay = v
 	Failures = nil
 	Reached = map[string]bool{}
+	frozenRoots, frozenDumps = nil, nil
 }
 
 func get(name string) uint64 { return Replay[name] }
@@ -132,10 +136,87 @@ func Thorough() bool { return os.Getenv("VERIF_TIER") == "thorough" }
 func IsSymbolic(x any) bool { return false }
 
 // Freeze marks all memory reachable from x as read-only for the write barrier.
-func Freeze(x any) {}
+// Natively it records a deep dump of x (following pointers) for later comparison.
+func Freeze(x any) {
+	frozenRoots = append(frozenRoots, x)
+	frozenDumps = append(frozenDumps, deepDump(x))
+}
 
-// FrozenWrites is the number of stores into frozen memory so far.
-func FrozenWrites() int { return 0 }
+// FrozenWrites is the number of stores into frozen memory so far (natively: the number of
+// frozen roots whose deep dump changed).
+func FrozenWrites() int {
+	n := 0
+	for i, r := range frozenRoots {
+		if deepDump(r) != frozenDumps[i] {
+			n++
+		}
+	}
+	return n
+}
+
+var frozenRoots []any
+var frozenDumps []string
+
+func deepDump(x any) string {
+	seen := map[uintptr]int{}
+	var walk func(v reflect.Value, depth int) string
+	walk = func(v reflect.Value, depth int) string {
+		if depth > 64 {
+			return "<deep>"
+		}
+		switch v.Kind() {
+		case reflect.Ptr:
+			if v.IsNil() {
+				return "nil"
+			}
+			p := v.Pointer()
+			if id, ok := seen[p]; ok {
+				return fmt.Sprintf("&#%d", id)
+			}
+			seen[p] = len(seen)
+			return "&" + walk(v.Elem(), depth+1)
+		case reflect.Interface:
+			if v.IsNil() {
+				return "nil"
+			}
+			return v.Elem().Type().String() + ":" + walk(v.Elem(), depth+1)
+		case reflect.Struct:
+			var parts []string
+			for i := 0; i < v.NumField(); i++ {
+				parts = append(parts, walk(v.Field(i), depth+1))
+			}
+			return "{" + strings.Join(parts, ",") + "}"
+		case reflect.Slice, reflect.Array:
+			if v.Kind() == reflect.Slice && v.IsNil() {
+				return "nil[]"
+			}
+			var parts []string
+			for i := 0; i < v.Len(); i++ {
+				parts = append(parts, walk(v.Index(i), depth+1))
+			}
+			return "[" + strings.Join(parts, ",") + "]"
+		case reflect.Map:
+			var parts []string
+			for _, k := range v.MapKeys() {
+				parts = append(parts, walk(k, depth+1)+"=>"+walk(v.MapIndex(k), depth+1))
+			}
+			sort.Strings(parts)
+			return "map[" + strings.Join(parts, ";") + "]"
+		case reflect.Bool:
+			return fmt.Sprint(v.Bool())
+		case reflect.Int, reflect.Int8, reflect.Int16, reflect.Int32, reflect.Int64:
+			return fmt.Sprint(v.Int())
+		case reflect.Uint, reflect.Uint8, reflect.Uint16, reflect.Uint32, reflect.Uint64, reflect.Uintptr:
+			return fmt.Sprint(v.Uint())
+		case reflect.Float32, reflect.Float64:
+			return fmt.Sprint(math.Float64bits(v.Float()))
+		case reflect.String:
+			return fmt.Sprintf("%q", v.String())
+		}
+		return "<" + v.Kind().String() + ">"
+	}
+	return walk(reflect.ValueOf(x), 0)
+}
 
 // MapOrder switches nondeterministic map iteration order on or off.
 func MapOrder(on bool) {}
@@ -161,3 +242,7 @@ func UFU64(name string, args ...uint64) uint64 { panic("zzverif.UFU64 called nat
 // Override replaces the named function (ssa String() form, module path optional) by fn
 // for the rest of the path. Engine only; natively a no-op (guard with Native()).
 func Override(name string, fn any) {}
+
+// Flag is a structural boolean: the engine enumerates both values on separate paths
+// (use Bool for data that should stay symbolic inside one path).
+func Flag(name string) bool { return Choice(name, 2) == 1 }
